@@ -1089,7 +1089,9 @@ func c08Gen(t *rapid.T, thorough bool) (*c08Case, func(e *aEnv) []aOp) {
 		if len(hc.Ops) >= n {
 			// make sure the newest file ends with a few complete records, some with value blobs
 			i := len(hc.Ops) - n
-			op := aOp{K: "lock", Db: 0, Key: 3, Id: 300 + i, E: 600 + i, EF: 0x0100, Cnt: 0xffff}
+			// (a key no history uses: a key that carried a value and became free would bring the listed finding
+			// C07:released-value-lingers-when-log-is-replayed into the comparison)
+			op := aOp{K: "lock", Db: 0, Key: 40000, Id: 300 + i, E: 600 + i, EF: 0x0100, Cnt: 0xffff}
 			if rapid.IntRange(0, 1).Draw(t, "tailVal") == 1 && i == 0 {
 				op.V = &aVal{Op: "set", B: rapid.SliceOfN(rapid.Byte(), 1, 9).Draw(t, "tailPayload")}
 				if rapid.IntRange(0, 2).Draw(t, "tailBig") == 0 {
